@@ -419,3 +419,16 @@ PROPS["C16"] = Prop(
     trusted_base=VERUS_TRUST,
     not_covered=["interpolate_string's slot type check", "builtins' own argument checks", "the `->type()` builtin's name table (duplicate of render_type)"],
 )
+
+
+V_RANGEREAD = VUnit("range_read", "range_read", ["eval::get_str_range_index", "eval::get_list_range_index"])
+V_PAIRS = VUnit("pairs", "pairs", ["eval::value_to_pairs"])
+ALL_V += [V_RANGEREAD, V_PAIRS]
+PROPS["C11"]._v = PROPS["C11"]._v + [V_RANGEREAD]
+PROPS["C07"]._v = PROPS["C07"]._v + [V_PAIRS]
+PROPS["C16"]._v = PROPS["C16"]._v + [V_PAIRS]
+PROPS["C02"]._v = ALL_V
+# the slow bounded Kani cells of the list range read are now a second back end: thorough tier only
+for _u in PROPS["C11"]._k:
+    if _u.harness.startswith("c11_list_range_"):
+        _u.thorough_only = True
